@@ -121,7 +121,7 @@ class ConnectSock(Contract):
             return [('ghost', 'pending_close', lambda ip: None)]
         if k == 0:
             from pyvc.source import Roles
-            return LoopSpec(inv=inv, modifies=mods, locals={Roles(WebsocketSession._connect_sock).assigned_from('socket.socket('): T.Const(None), 'af': T.Opaque(), 'socktype': T.Opaque(), 'proto': T.Opaque(),
+            return LoopSpec(inv=inv, modifies=mods, locals={Roles(WebsocketSession._connect_sock).assigned_from('socket.socket('): T.Known(None), 'af': T.Opaque(), 'socktype': T.Opaque(), 'proto': T.Opaque(),
                                                             'canonname': T.Opaque(), 'sa': T.Opaque(), 'res': T.Const(None), 'error': T.Const(None)})
         return None
 
